@@ -553,21 +553,48 @@ func genC02(r *vh.Runner) {
 	nt := r.Pick(24, 600)
 	for k := 0; k < nt; k++ {
 		r.Case(fmt.Sprintf("tiny-handshake-timeout/%d", k), map[string]any{"rep": k}, func(c *vh.Case) {
-			c.Bubble(func() {
+			// Every third repetition runs in real time: in a bubble a timer
+			// fires only once every goroutine is blocked, so it can never beat
+			// a message that is being processed; on a real clock it can.
+			realTime := k%3 == 2
+			settle := bub.Settle
+			run := func(fn func()) { c.Bubble(fn) }
+			if realTime {
+				settle = time.Sleep
+				run = func(fn func()) { fn() }
+			}
+			run(func() {
 				rng := vh.NewRand(r.Seed, "c02-tiny", k)
 				hidden := rng.Chance(0.6)
 				d := time.Duration(rng.Pick(1, 1, 1000, 100000, 1000000))
+				if realTime {
+					d = time.Duration(rng.Pick(0, 1, 1, 1000, 20000, 100000, 300000))
+				}
 				cv := &transport.VerifyConfig{}
 				w := fix.NewWorld(true, cv, func(sc *transport.ServerConfig) { sc.HandshakeTimeout = d; sc.IsHidden = hidden })
 				cv.Store = w.PKI.Store()
 				defer w.Server.Close()
 				id := w.PKI.Issue()
-				for rep := 0; rep < 6 && !c.Violated(); rep++ {
+				reps := 6
+				if realTime {
+					reps = 40
+				}
+				for rep := 0; rep < reps && !c.Violated(); rep++ {
 					cl, ep := w.NewClient(id, hidden, 2*time.Second)
-					res := runHandshake(cl)
-					bub.Settle(20 * time.Millisecond)
+					var res hsResult
+					if realTime {
+						if res.Err = cl.Handshake(); res.Err == nil {
+							res.ClientSess, res.ClientOK = cl.VerifSession()
+						}
+					} else {
+						res = runHandshake(cl)
+					}
+					settle(20 * time.Millisecond)
 					r.Count("evaluations", 1)
 					r.Count("tiny_timeout_handshakes", 1)
+					if realTime {
+						r.Count("tiny_timeout_handshakes_in_real_time", 1)
+					}
 					if res.Err == nil && res.ClientOK {
 						for _, ss := range serverSessionsFor(w, ep.Source()) {
 							r.Count("tiny_timeout_both_completed", 1)
